@@ -26,6 +26,7 @@ package ctreeprop
 
 import (
 	"fmt"
+	"runtime"
 	"sort"
 	"sync"
 	"sync/atomic"
@@ -114,7 +115,7 @@ func perform(tr *ctree.Tree, o *HOp, l *ctree.Leaf, now func() int64) (got *ctre
 		o.Call = now()
 		v := tr.GetLeafValue(o.Path)
 		o.Ret = now()
-		o.Got = toInt(v)
+		o.Got = obsInt(o, o.Path, v)
 	case "getleaf":
 		o.Call = now()
 		h := tr.GetLeaf(o.Path)
@@ -133,24 +134,32 @@ func perform(tr *ctree.Tree, o *HOp, l *ctree.Leaf, now func() int64) (got *ctre
 		o.Call = now()
 		v := l.Value()
 		o.Ret = now()
-		o.Got = toInt(v)
+		o.Got = obsInt(o, o.Path, v)
 	case "hupd":
 		o.Call = now()
 		l.Update(o.Val)
 		o.Ret = now()
 	case "query", "walk", "final":
-		var kv []kv
+		kv := []KV{}
+		visit := func(path []string, _ *ctree.Leaf, val interface{}) error {
+			p := append([]string{}, path...)
+			kv = append(kv, KV{p, obsInt(o, p, val)})
+			for i := 0; i < o.Yield; i++ {
+				runtime.Gosched()
+			}
+			return nil
+		}
 		o.Call = now()
-		if o.Kind == "query" {
-			kv, _ = collect(func(f ctree.VisitFunc) error { return tr.Query(o.Path, f) })
-		} else {
-			kv, _ = collect(tr.Walk)
+		switch {
+		case o.Kind == "query":
+			tr.Query(o.Path, visit)
+		case o.Sorted:
+			tr.WalkSorted(visit)
+		default:
+			tr.Walk(visit)
 		}
 		o.Ret = now()
-		o.KV = []KV{}
-		for _, e := range kv {
-			o.KV = append(o.KV, KV{unkey(e.k), toInt(e.v)})
-		}
+		o.KV = kv
 	case "del":
 		o.Call = now()
 		res := tr.Delete(o.Path)
@@ -164,7 +173,7 @@ func perform(tr *ctree.Tree, o *HOp, l *ctree.Leaf, now func() int64) (got *ctre
 	case "walkdel":
 		o.Vals = []int{}
 		o.Call = now()
-		tr.WalkDeleted(o.Path, evenCond, func(v interface{}) { o.Vals = append(o.Vals, toInt(v)) })
+		tr.WalkDeleted(o.Path, evenCond, func(v interface{}) { o.Vals = append(o.Vals, obsInt(o, o.Path, v)) })
 		o.Ret = now()
 	default:
 		panic("unknown op kind " + o.Kind)
